@@ -323,7 +323,7 @@ pub fn run(ctx: &Ctx) -> PropResult {
         res.inconclusive = Some(e);
         return res;
     }
-    let mut all: Vec<&'static IfaceDesc> = vec![ctx.iface("mini"), ctx.iface("qdev2")];
+    let mut all: Vec<&'static IfaceDesc> = ctx.built(&["mini", "qdev2"]);
     all.extend(ctx.random_ifaces().into_iter().filter(|i| i.decls.iter().any(|d| d.cmd.ends_with('?'))));
     let shards = 64usize;
     let cases = ctx.scaled(if ctx.thorough { 4_000 } else { 300 });
